@@ -131,7 +131,7 @@ Proof.
   - destruct (setitem s p key c) as [s'|e] eqn:E; simpl; auto.
     destruct (setitem_ok NH s p key c s' I E) as [I' M]. split; auto. apply K0_stepm; auto.
   - destruct (delitem true s p key) as [s' e] eqn:E.
-    destruct (delitem_ok NH s p key s' e I E) as (I' & M & _).
+    destruct (delitem_ok NH s p key s' e I G E) as (I' & M & _).
     destruct e; simpl; (split; [auto | apply K0_stepm; auto]).
   - destruct G as [ND HL]. destruct (update_many true s p l) as [s' e] eqn:E.
     destruct (update_many_ok NH s p l s' e I ND HL E) as (I' & M & _).
@@ -256,7 +256,7 @@ Proof.
   - discriminate.
   - destruct (setitem s p key c); simpl in *; [discriminate | reflexivity].
   - destruct (delitem true s p key) as [s' [e0|]] eqn:E; simpl in *; [|discriminate].
-    destruct (delitem_ok NH s p key s' (Some e0) I E) as (_ & _ & N). apply (N e0 eq_refl).
+    destruct (delitem_ok NH s p key s' (Some e0) I G E) as (_ & _ & N). apply (N e0 eq_refl).
   - destruct G as [ND HL]. destruct (update_many true s p l) as [s' [e0|]] eqn:E; simpl in *; [|discriminate].
     destruct (update_many_ok NH s p l s' (Some e0) I ND HL E) as (_ & _ & N). apply (N e0 eq_refl).
   - destruct (getitem_ s p key); reflexivity.
